@@ -151,9 +151,9 @@ def nested_zip(fname, data, nesting, in_dir):
     return blob
 
 
-def ask(reader, name):
+def ask(reader, name, **percall):
     try:
-        info, text = reader.getData(name)
+        info, text = reader.getData(name, **percall)
         return ('found', text, info.mtime, getattr(info, 'file', None))
     except error.PySmiReaderFileNotFoundError:
         return ('not-found',)
@@ -179,6 +179,12 @@ class Names(object):
             for o in deep_o:
                 for where in ('dir1', 'dir2', 'dir1-norec', 'zip0', 'zip1', 'zip2', 'zip1-dir'):
                     out.append({'r': r, 'o': o, 'where': where})
+        # fuzzy matching given WITH THE CALL (what every borrower does), the reader itself left at the opposite setting or at its default
+        for r in REQUESTS:
+            for o in (15, 7):
+                for inst in ('opposite', 'default'):
+                    for where in ('dir0', 'zip0'):
+                        out.append({'r': r, 'o': o, 'where': where, 'percall': inst})
         return out
 
     def cases(self, block, tier):
@@ -195,6 +201,13 @@ class Names(object):
         root = scratch()
         try:
             opts = dict(fuzzyMatching=fuzzy, originalMatching=orig, uppercaseMatching=upper, lowcaseMatching=lower)
+            percall = {}
+            if case.get('percall'):
+                percall = {'fuzzyMatching': fuzzy}
+                if case['percall'] == 'opposite':
+                    opts['fuzzyMatching'] = not fuzzy
+                else:
+                    del opts['fuzzyMatching']
             reachable = True
             if where.startswith('dir'):
                 depth = int(where[3])
@@ -211,12 +224,12 @@ class Names(object):
                     f.write(blob)
                 reader = ZipReader(zp).setOptions(**opts)
                 want_mtime = time.mktime(datetime.datetime(*ZIP_DT).timetuple())
-            got = ask(reader, r)
+            got = ask(reader, r, **percall)
             vs = []
             optname = ''.join(c for c, b in zip('FOUL', (fuzzy, orig, upper, lower)) if b) or 'none'
             kind = 'zip' if where.startswith('zip') else 'dir'
             rel = 'demanded' if fname in demanded else 'related' if fname in related else 'unrelated'
-            sig = 'C14|names|%s|opts=%s|%s' % (kind, optname, rel)
+            sig = 'C14|names|%s|opts=%s|%s%s' % (kind, optname, rel, '|fuzzy-given-with-the-call' if percall else '')
             if got[0] in ('foreign', 'error'):
                 vs.append(('%s|%s|%s' % (sig, got[0], got[1]), 'request %s file %s where %s -> %r' % (r, fname, where, got)))
             elif got[0] == 'found':
